@@ -2206,7 +2206,8 @@ class unyt_array(np.ndarray):
          [8. 8.]] km*s**2
         """
         res_units = self.units * getattr(b, "units", NULL_UNIT)
-        ret = self.view(np.ndarray).dot(np.asarray(b), out=out) * res_units
+        out_view = None if out is None else np.asarray(out)
+        ret = self.view(np.ndarray).dot(np.asarray(b), out=out_view) * res_units
         if out is not None:
             out.units = res_units
         return ret
